@@ -347,8 +347,13 @@ func candidates(s *scn.Scenario, stage int) []*scn.Scenario {
 				if t == s.Exprs[ei].Text {
 					continue
 				}
-				if ex, _ := compile(t); ex == nil {
-					continue
+				// (in a poisoned process the package's locks may be held by leaked
+				// goroutines: do not touch the package here, the child process that
+				// judges the candidate rejects texts that do not compile)
+				if !ProcessPoisoned() {
+					if ex, _ := compile(t); ex == nil {
+						continue
+					}
 				}
 				add(func(c *scn.Scenario) { c.Exprs[ei].AST = ne; c.Exprs[ei].Text = t })
 			}
@@ -408,9 +413,9 @@ const RaceBuild = raceEnabled
 
 // CompileOK reports whether the engine accepts the text (used by generators).
 func CompileOK(text string) bool {
-	old := useNS
-	useNS = false
+	old, oldMust := useNS, useMust
+	useNS, useMust = false, false
 	ex, _ := compile(text)
-	useNS = old
+	useNS, useMust = old, oldMust
 	return ex != nil
 }
